@@ -1,0 +1,19 @@
+//go:build verif
+
+package primev
+
+import (
+	"github.com/jackc/pgx/v4/pgxpool"
+
+	"github.com/shutter-network/rolling-shutter/rolling-shutter/keyper/epochkghandler"
+	"github.com/shutter-network/rolling-shutter/rolling-shutter/medley/broker"
+)
+
+// VerifNewCommitmentHandler constructs the commitment handler (verification hook, build tag verif).
+func VerifNewCommitmentHandler(
+	config *Config,
+	dbpool *pgxpool.Pool,
+	trigger chan *broker.Event[*epochkghandler.DecryptionTrigger],
+) *PrimevCommitmentHandler {
+	return &PrimevCommitmentHandler{config: config, dbpool: dbpool, decryptionTriggerChannel: trigger}
+}
